@@ -75,10 +75,10 @@ PROPS["C19"] = {
         {"name": "c19_seq", "params": {"quick": {"writes": 3}, "thorough": {"writes": 5}}, "covers": ["newer.stale-write-seen", "newer.incoming-write-lost"]},
         {"name": "c19_race2", "covers": ["newer.race-a-last", "newer.race-b-last"]},
         {"name": "c19_replicas_2nodes", "fn": "c19_replicas", "params": {"quick": {"secondaries": 1, "writes": 2, "orders": 1}, "thorough": {"secondaries": 1, "writes": 3, "orders": 1}}, "covers": ["replicas.stale-version"]},
-        {"name": "c19_replicas_3nodes", "fn": "c19_replicas", "params": {"quick": {"secondaries": 2, "writes": 2, "orders": 0}, "thorough": {"secondaries": 2, "writes": 2, "orders": 1}}, "covers": ["replicas.stale-version"], "budget_s": {"quick": 900, "thorough": 7200}},
+        {"name": "c19_replicas_3nodes", "fn": "c19_replicas", "params": {"quick": {"secondaries": 2, "writes": 2, "orders": 0}, "thorough": {"secondaries": 2, "writes": 1, "orders": 1}}, "covers": ["replicas.stale-version"], "budget_s": {"quick": 900, "thorough": 7200}},
     ],
     "bounds": {"quick": "3 consecutive writes (plain or versioned with any version in [0,1000)) to one key of a newer-strategy database with op ids from a symbolic non-decreasing clock (ties allowed); 2 concurrent set-safe writers (any versions in [-1, cur+1]) under all lock-level interleavings; replicas: 2 consecutive writes (plain or versioned with any version in [0, cur+1]) issued on the primary of a 2-node cluster (all FIFO delivery orders) and of a 3-node cluster (one fair order), each replicated before the next, every replica compared with the primary",
-               "thorough": "5 writes; 3 replicated writes; 3 nodes under all delivery orders"},
+               "thorough": "5 writes; 3 replicated writes on 2 nodes; one replicated write on 3 nodes under all delivery orders"},
     "outside": "writes issued on a secondary (C04 records the double application there); more than 2 concurrent writers; concurrent clients in a cluster",
     "assumptions": ["environment shims", "partial-order reduction: session locks, the database table and the metrics averages are not yield points (checked for contention)"],
 }
